@@ -116,7 +116,8 @@ def run(repo: Repo, chk: Check) -> None:
         "decided on path summaries (every control-flow path composed symbolically, call results identified by call site): O1 the AES-GCM key, "
         "the nonce written into the GCM parameters (and used for the encryption), the nonce-mode key_info and the ephemeral private key are, "
         "on every path, the result of os.urandom / AESGCM.generate_key evaluated inside the protect call (not a parameter, module constant, "
-        "cached or stateful helper, mutable default); O2 their sizes are 256 bit, 12, 32 and ceil(private_key_length/8) bytes; O3 no use of "
+        "cached or stateful helper, mutable default), and the KEK and the key identifier of a blob are results [0] and [1] of one key.new_kek() "
+        "call made for that encryption; O2 their sizes are 256 bit, 12, 32 and ceil(private_key_length/8) bytes; O3 no use of "
         "the 'random' module, no seeding, no caching decorator or mutable default argument in the protect region; O4 the ephemeral public key "
         "is computed from that fresh private key, which reaches the group operation unreduced, the GCM parameters are written by a writer "
         "created in this call, and the CEK that is wrapped is the CEK that encrypted."
